@@ -1125,8 +1125,12 @@ impl Connection {
                 // The current `path` might have changed inside `handle_decode`,
                 // since the packet could have triggered a migration. Make sure
                 // the data received is accounted for the most recent path by accessing
-                // `path` after `handle_decode`.
-                self.path.total_recvd = self.path.total_recvd.saturating_add(data_len as u64);
+                // `path` after `handle_decode`. Datagrams from any other address (e.g. ones that
+                // did not trigger a migration) must not raise the anti-amplification budget of
+                // the current path.
+                if remote == self.path.remote {
+                    self.path.total_recvd = self.path.total_recvd.saturating_add(data_len as u64);
+                }
 
                 if let Some(data) = remaining {
                     self.stats.udp_rx.bytes += data.len() as u64;
@@ -2283,7 +2287,9 @@ impl Connection {
         ecn: Option<EcnCodepoint>,
         data: BytesMut,
     ) {
-        self.path.total_recvd = self.path.total_recvd.saturating_add(data.len() as u64);
+        if remote == self.path.remote {
+            self.path.total_recvd = self.path.total_recvd.saturating_add(data.len() as u64);
+        }
         let mut remaining = Some(data);
         while let Some(data) = remaining {
             match PartialDecode::new(
